@@ -117,8 +117,11 @@ func (e *Engine) run(st *State, stop *ssa.BasicBlock, depth int) []*State {
 		if e.stats.Steps > e.opts.MaxSteps {
 			e.abort(fmt.Sprintf("step budget (%d) exceeded", e.opts.MaxSteps))
 		}
-		if e.stats.Steps&0xfff == 0 && e.stats.Steps > 2_000_000 && memPressure.Load() {
-			e.abort("memory budget exceeded (process heap above GOSMT_MEM_GB)")
+		if e.stats.Steps&0x3ff == 0 {
+			publishSize(e)
+			if memCritical.Load() || (memPressure.Load() && isBigConsumer(e)) {
+				e.abort("memory budget exceeded (process heap above GOSMT_MEM_GB)")
+			}
 		}
 		if e.stats.Steps&0xffff == 0 && !e.opts.Deadline.IsZero() && time.Now().After(e.opts.Deadline) {
 			e.abort("deadline exceeded")
